@@ -129,7 +129,7 @@ def check_plane(case, ctx, G):
                 raise Fail("three-point plane misses a defining point", {"point": q}, facts)
     # general form
     gf = step("general_form", P.general_form)
-    if len(gf) != 4 or any(not isinstance(x, (int, float, F)) for x in gf):
+    if not isinstance(gf, (tuple, list)) or len(gf) != 4 or any(not isinstance(x, (int, float, F)) for x in gf):
         raise Fail("general_form [%s] is not four numbers" % case[0], {"got": repr(gf)}, facts)
     same_plane(step("Plane(*general_form())", lambda: G.Plane(*gf)), "Plane(*general_form())")
     # the coefficients must describe this plane
